@@ -25,7 +25,7 @@ def prop(pid, rules, explanation, minimum=None, assumptions=None):
 
 prop('C01',
      [T.rule_lookup_shape, T.rule_chain, T.rule_total_ber, T.rule_pair_ber, T.rule_fragment_tag_ber, A.rule_a7_unit,
-      A.rule_a8_pairing, W.rule_encode_header, W.rule_decode_header, A.rule_c04_default],
+      A.rule_a8_pairing, W.rule_encode_header, W.rule_decode_header, A.rule_c04_default, E.rule_option_latch, A.rule_a6_spec],
      'Static necessary conditions of the BER round trip: every type class has an encoder by type and a decoder by type; '
      'writer and reader of each type belong to the same codec family; string segments are tagged by the writer as the '
      'reader demands and as X.690 8.23.6 says; chunks are slices of the measured octets; end-of-octets is appended iff '
@@ -37,7 +37,7 @@ prop('C01',
 
 prop('C02',
      [T.rule_chain, T.rule_derived, T.rule_total_canon, T.rule_pair_canon, T.rule_modes, T.rule_keykind,
-      T.rule_fragment_tag_canon, A.rule_a7_unit, A.rule_a8_pairing],
+      T.rule_fragment_tag_canon, A.rule_a7_unit, A.rule_a8_pairing, E.rule_option_latch, A.rule_c04_default, A.rule_a6_spec],
      'CER/DER tables are derived from and total w.r.t. BER, fixed encoder modes match X.690 9/10 and override caller '
      'options, codec families pair up, string segments agree between the CER writer and every reader, end-of-octets '
      'pairs with the indefinite header.  Equality of decoded values is not decided.',
@@ -45,7 +45,7 @@ prop('C02',
 
 prop('C03',
      [T.rule_x680, T.rule_modes, T.rule_canonical_sort_registered, M.rule_a9_set, M.rule_a9_setof, W.rule_encode_header,
-      A.rule_a8_pairing, A.rule_c13],
+      A.rule_a8_pairing, A.rule_c13, E.rule_option_latch],
      'Compared with an independent X.680/X.690 table: universal tag numbers, class/format constants, end-of-octets '
      'octets, canonical encoder modes, TRUE = FF, identifier/length octet thresholds of the encoder, SET members '
      'ordered by the outermost tag, SET OF members sorted as zero-padded octet strings, end-of-octets iff indefinite '
@@ -62,7 +62,8 @@ prop('C04',
      {'C04.default': 4, 'C04.clone': 4, 'A9.reg': 4, 'C04.optional': 4})
 
 prop('C05',
-     [G.rule_slots, G.rule_prod, G.rule_retry, G.rule_cons, G.rule_last, G.rule_drop, G.rule_reads_confined],
+     [G.rule_slots, G.rule_prod, G.rule_retry, G.rule_cons, G.rule_last, G.rule_drop, G.rule_reads_confined,
+      G.rule_iter_total, X.rule_trunc],
      'Underrun-generator protocol, logging off: every producer suspends position-neutrally and repeats its read; every '
      'consumer loop forwards underrun objects untouched and runs nothing else on them; the result is the last item and '
      'nothing follows it.  By induction on suspension points the decoder state after any arrival schedule equals that of '
@@ -70,14 +71,14 @@ prop('C05',
      {'A2.cons': 50, 'A2.prod': 70, 'A2.retry': 4, 'A2.last': 50, 'A2.slot': 3, 'A2.drop': 12, 'A2.reads': 5})
 
 prop('C06',
-     [X.rule_hier, X.rule_trunc, G.rule_oneshot, G.rule_retry, G.rule_reads_confined, G.rule_cons],
+     [X.rule_hier, X.rule_trunc, G.rule_oneshot, G.rule_retry, G.rule_reads_confined, G.rule_cons, G.rule_iter_total],
      'Truncation is classified as insufficient data: error hierarchy, the three outcomes of a stream read, raises that '
      'depend on end-of-stream probes or short header reads, the one-shot wrapper, no stream read outside the classifying '
      'module.  That every content read is sized by the decoded length is arithmetic and not decided.',
      {'A3.hier': 7, 'A3.trunc': 3, 'A2.oneshot': 3, 'A2.retry': 4, 'A2.reads': 5})
 
 prop('C07',
-     [A.rule_c07_len, A.rule_c07_eoo, G.rule_oneshot, G.rule_drop, A.rule_a8_pairing, G.rule_last],
+     [A.rule_c07_len, A.rule_c07_eoo, G.rule_oneshot, G.rule_drop, A.rule_a8_pairing, G.rule_last, G.rule_iter_total],
      'Exactly one encoding is consumed: consumed-vs-announced length check on every path before an item completes; the '
      'end-of-octets probe un-reads exactly what it read; remainder read from the same stream; no read result dropped; '
      'the encoder appends end-of-octets iff it wrote an indefinite header.  Numeric correctness of lengths is not decided.',
@@ -85,7 +86,7 @@ prop('C07',
 
 prop('C08',
      [X.rule_raise, X.rule_tagmap_guard, X.rule_partial, X.rule_schema_index, X.rule_nonevalue, X.rule_progress,
-      W.rule_content_guards],
+      W.rule_content_guards, X.rule_union_attr, G.rule_iter_total],
      'Malformed input fails cleanly: every explicit raise in the decode scope is a library error (or a recorded '
      'Python-protocol raise), partial operations on wire octets are guarded, no placeholder / raw octets reach a result '
      'yield, every loop makes progress and the item decoder state graph is acyclic, the anchored format checks refuse '
@@ -100,7 +101,7 @@ prop('C09',
      'any position in both length forms (sibling agreement of the record loops).  Length arithmetic is not decided.',
      {'A1.lax': 35, 'A7.tag': 30, 'A7.nested': 4, 'A6.spec': 3, 'W.dec': 10})
 
-prop('C10', [A.rule_c10, A.rule_a6_spec, X.rule_nonevalue],
+prop('C10', [A.rule_c10, A.rule_a6_spec, X.rule_nonevalue, A.rule_c14],
      'Spec-guided exits of the constructed decoders: required components present; constraints (isInconsistent) checked '
      'before the value is returned; result is an ASN.1 object built from the guiding type.  The re-encode fixpoint is not decided.',
      {'C10.req': 2, 'C10.cons': 6, 'A13.value': 20})
